@@ -9,7 +9,7 @@
  * @defs -DZSTD_MULTITHREAD
  * @mem native
  * @cbmc --unwind 22 --unwindset harness.0:20,harness.1:30,file_at.0:12
- * @timeout 300
+ * @timeout 900
  * @memgb 8
  * @instance q -DH_BIG=0
  * @instance big tier=thorough timeout=1200 -DH_BIG=1
